@@ -425,6 +425,56 @@ def _inline_into(caller, helper, hname, is_method, clsname):
                     break
             if changed:
                 break
+    # a call that is the first thing a statement evaluates (`return Ctor(h(x))`, `y = f(h(x))`): hoist into a temporary
+    if expr_e is None:
+        for _ in range(10):
+            hoisted = False
+            for lst in _stmt_lists(caller):
+                for i, st in enumerate(lst):
+                    if not isinstance(st, (ast.Return, ast.Assign, ast.Expr)) or st.value is None:
+                        continue
+                    inner = st.value
+                    chain_ok = True
+                    target = None
+                    while isinstance(inner, ast.Call):
+                        if _call_matches(inner, hname, is_method, clsname):
+                            target = inner
+                            break
+                        if not (_simple(inner.func) and inner.args and not isinstance(inner.args[0], ast.Starred)):
+                            chain_ok = False
+                            break
+                        inner = inner.args[0]
+                    if target is None or not chain_ok or target is st.value:
+                        continue
+                    tmp = "_h_" + hname.strip("_")
+                    k = 0
+                    while any(isinstance(n, ast.Name) and n.id == tmp for n in ast.walk(caller)):
+                        k += 1
+                        tmp = "_h%d_%s" % (k, hname.strip("_"))
+                    asg = ast.Assign(targets=[ast.Name(id=tmp, ctx=ast.Store())], value=target)
+                    ast.copy_location(asg, st)
+                    # replace the call by the temporary
+                    par = st.value
+                    while par.args[0] is not target:
+                        par = par.args[0]
+                    par.args[0] = ast.copy_location(ast.Name(id=tmp, ctx=ast.Load()), target)
+                    ast.fix_missing_locations(asg)
+                    lst.insert(i, asg)
+                    new = _expansion(helper, target, is_method, caller, "assign", asg.targets[0])
+                    if new is not None:
+                        lst[i:i + 1] = new
+                        n_done += 1
+                    else:
+                        # undo
+                        par.args[0] = target
+                        del lst[i]
+                        continue
+                    hoisted = True
+                    break
+                if hoisted:
+                    break
+            if not hoisted:
+                break
     # calls nested in expressions: only expression helpers (`return E`)
     if expr_e is not None:
         class T(ast.NodeTransformer):
